@@ -80,6 +80,20 @@ def edge_cut(ctx, g):
                     return False
                 okf = bool(disj) and all(has(at, pv, True) and has(at, pw, False) for _, at in disj)
                 why = "the filter is not `seen.contains(v) && !seen.contains(w)` on the seen set of the last search"
+        # ... and are reported as they are: nothing but cloned()/copied()/collect() (or an identity map) between the filter and the result
+        if okf:
+            for x in subterms(ce):
+                if isinstance(x, tuple) and x and x[0] == "call":
+                    last = x[1].split("::")[-1]
+                    if last in ("collect", "cloned", "copied", "filter", "iter", "into_iter", "deref", "as_ref", "borrow"):
+                        continue
+                    if last == "map" and len(x[2]) == 2:
+                        res = closure_result(ctx.facts, x[2][1], g)
+                        if res is not None and strip(res)[0] == "param" and strip(res)[1] == 2:
+                            continue
+                    if contains(x, lambda y: y == flt[0]):
+                        okf = False
+                        why = "the filtered edges are transformed by `%s` before they are reported (an edge of the cut must be reported as the directed pair (v, w) that leaves the seen set)" % last
         ctx.ob("T4-cut-edges-leave-seen", b.name, "cut_edges", "ok" if okf else "violation",
                "cut_edges = {(v, w) in edges : v in seen, w not in seen} for the last search's seen set" if okf else why + ": " + show(ce, 1)[:100], b.span_of(bi, si))
         oki = contains(iv, lambda x: x == seen) and not any(isinstance(x, tuple) and x and x[0] == "call" and x[1].endswith("Iterator::filter") for x in subterms(iv))
